@@ -44,6 +44,10 @@ enum Work<'a> {
     Validate(&'a Case),
     /// the variant of a signed base whose presented signature first differs at `pos` (built in the child)
     Variant { base: &'a Signed, pos: usize, k: usize },
+    /// the same variant, traced from the entry of the validation to the provider's first readiness poll
+    /// (the *front* window): nothing there may depend on which characters of the signature are wrong either
+    /// (a remembered earlier signature compared with `==`, say)
+    FrontVariant { base: &'a Signed, pos: usize, k: usize },
     /// self-check of the tracer: an early-exit comparison of two 64-byte strings through `==`
     EarlyExit(&'a [u8], &'a [u8]),
 }
@@ -61,6 +65,17 @@ fn run_work(w: &Work) {
         Work::Variant { base, pos, k } => {
             let c = variant_of(base, *pos, *k);
             run_work(&Work::Validate(&c));
+        }
+        Work::FrontVariant { base, pos, k } => {
+            let c = variant_of(base, *pos, *k);
+            let req = imp::build_request(&c).expect("request");
+            let mut prov = imp::provider_for(vec![imp::entry_of(&c)]);
+            imp::TRACE_FRONT.store(true, Ordering::SeqCst);
+            unsafe { libc::raise(libc::SIGSTOP) };
+            let v = imp::validate_with(&c, req, &mut prov);
+            // not reached when the provider is consulted (its readiness poll raises the end marker)
+            unsafe { libc::raise(libc::SIGUSR1) };
+            std::hint::black_box(v.class);
         }
         Work::EarlyExit(a, b) => {
             unsafe { libc::raise(libc::SIGSTOP) };
@@ -275,6 +290,48 @@ fn main() {
                 nres += 1;
             }
         }
+        // front window: a few positions (same character class, k = 0), first against the others
+        let front_positions: [usize; 5] = [0, 1, 31, 62, 63];
+        let mut front: [(usize, usize, i64, bool, &'static str); 5] = [(0, 0, -1, false, ""); 5];
+        let mut have_front_ref = false;
+        for (fi, &p) in front_positions.iter().enumerate() {
+            match trace(&Work::FrontVariant { base: &s, pos: p, k: 0 }, &mut cur) {
+                Err(e) => front[fi] = (p, 0, -1, true, e),
+                Ok(()) => {
+                    if !have_front_ref {
+                        reference.clear();
+                        reference.extend_from_slice(&cur);
+                        have_front_ref = true;
+                        front[fi] = (p, cur.len(), -1, false, "");
+                    } else {
+                        let d = first_divergence(&reference, &cur).map(|x| x as i64).unwrap_or(-1);
+                        front[fi] = (p, cur.len(), d, false, "");
+                    }
+                }
+            }
+        }
+        for fi in 0..front.len() {
+            let (p, len, d, failed, err) = front[fi];
+            rep.count("evaluations");
+            rep.count("evaluations.front_window");
+            rep.count("traces_validated_against_impl");
+            rep.add("steps_total", len as u64);
+            if failed {
+                rep.fail(Failure { kind: "INTERNAL", op: "TRACE".into(), class: "tracer-failed".into(), input: format!("base {} position {} (front window)", base, p), imp: err.to_string(), model: String::new(), spec: String::new(), clause: "tracing the front window of a refusal failed".into() });
+            } else if d >= 0 {
+                rep.fail(Failure {
+                    kind: "ORACLE",
+                    op: "TRACE".into(),
+                    class: "c07-front-trace-differs".into(),
+                    input: format!("request {} ; presented signature differs first at position {} vs position {} ; window: entry of sigv4_validate_request to the provider's first readiness poll, after the same request has been accepted once in this process", s.case.describe(), p, front[0].0),
+                    imp: format!("{} instructions vs {}; traces diverge at step {}", len, front[0].1, d),
+                    model: "nothing before the key lookup depends on the expected signature (C07.refusal_trace_independent_of_position)".into(),
+                    spec: String::new(),
+                    clause: "C07: the instruction sequence executed before the key lookup depends on which characters of the presented signature are wrong".into(),
+                });
+            }
+        }
+        rep.add(&format!("front_steps_base{}", base), front[0].1 as u64);
         for i in 0..nres {
             let (p, k, len, d, failed) = results[i];
             rep.count("evaluations");
